@@ -497,6 +497,19 @@ def dde_models():
     # instantaneous entry that still contains a delayed factor
     d5 = dict(name="d5", eqs=[["x", "de", ["+", ["neg", V("x")], ["*", V("x"), ["past", "x", 0.4]]]]], vars={"x": ["output", 0.6]})
     out.append(("H5-product-with-delayed-factor", dict(delays=[0.4]), model([d5], {"p": dict(ops=["d5"])})))
+    # delayed EDGES under an adaptive solver (DDE branch of the edge buffer), several delays from one source
+    pop = op_li("op", x="r", ins=("r_in",), tau=2.0, x0=0.4, in_defaults={"r_in": 0.0})
+    tg = op_li("tg", x="v", ins=("u",), tau=1.0, x0=0.1, in_defaults={"u": 0.0})
+    out.append(("H6-delayed-edges-two-delays-one-source", dict(edges=True),
+                model([pop, tg], {"p1": dict(ops=["op"]), "p2": dict(ops=["op"], over={"op/tau": 3.0}), "t1": dict(ops=["tg"]),
+                                  "t2": dict(ops=["tg"], over={"tg/tau": 2.0})},
+                      [edge("p1/op/r", "t1/tg/u", 1.0, 0.3), edge("p1/op/r", "t2/tg/u", 2.0, 0.7), edge("p2/op/r", "p1/op/r_in", -0.5, 0.5),
+                       edge("t1/tg/v", "p2/op/r_in", 0.8)])))
+    # negative coefficient in front of a delayed term inside a sum (printing of ` - 2.0*past(...)`)
+    d7 = dict(name="d7", eqs=[["x", "de", ["-", V("z"), V("x")]],
+                              ["z", "de", ["-", V("x"), ["*", N(2.0), ["past", "z", 0.5]]]]],
+              vars={"x": ["output", 0.3], "z": ["state", -0.2]})
+    out.append(("H7-negative-coefficient-delayed-term", dict(delays=[0.5]), model([d7], {"p": dict(ops=["d7"])})))
     return out
 
 
